@@ -593,14 +593,15 @@ Proof.
 Qed.
 
 (* parseTags inverts the renderer's strings.Join(tags, ",").  Since /repo dfc4ae0 the tags are
-   written raw, so a tag may hold ANY byte except the quote, the comma and the newline (backslash,
-   control and non-printable bytes included); it must be non-empty and unchanged by TrimSpace
+   written raw, so a tag may hold ANY ASCII byte except the quote, the comma and the newline
+   (backslash and control bytes included; the model's TrimSpace / ToLower are the ASCII ones, so
+   bytes >= 128 stay outside, as everywhere in this development); it must be non-empty and unchanged by TrimSpace
    (which is what parseTags applies to it). *)
-Definition tagc (c : N) : bool := qc c && lc c && negb (c =? 44).
+Definition tagc (c : N) : bool := qc c && lc c && negb (c =? 44) && (c <? 128).
 Definition tag_ok (t : str) : bool := negb (at_end t) && forallb tagc t && beq (trim_space t) t.
 
 Lemma tagc_nosep t : forallb tagc t = true -> nosep 44 t = true.
-Proof. apply forallb_impl. intros c H. unfold tagc in H. now apply andb_true_iff in H as [_ ?]. Qed.
+Proof. apply forallb_impl. intros c H. unfold tagc in H. apply andb_true_iff in H as [H _]. now apply andb_true_iff in H as [_ ?]. Qed.
 
 Theorem parse_tags_join tags : tags <> [] -> Forall (fun t => tag_ok t = true) tags ->
   parse_tags (join tags [44]) = tags.
@@ -643,7 +644,15 @@ Qed.
 (* ---- parseOpts inverts "k=v k=v ..." for keys in ascending order ---- *)
 Definition kv_text (kv : str * str) : str := fst kv ++ [61] ++ snd kv.
 Definition opts_text (o : list (str * str)) : str := join (map kv_text o) sp.
-Definition kv_ok (kv : str * str) : bool := forallb safe (fst kv) && nosep 61 (fst kv) && forallb safe (snd kv).
+(* option keys and values: any byte that is no white space and no quote (keys also without =) *)
+Definition kvc (c : N) : bool := tokc c && qc c.
+Lemma kvc_tokc c : kvc c = true -> tokc c = true.
+Proof. unfold kvc. intros H. now apply andb_true_iff in H as [? _]. Qed.
+Lemma kvc_qc c : kvc c = true -> qc c = true.
+Proof. unfold kvc. intros H. now apply andb_true_iff in H as [_ ?]. Qed.
+Lemma kvc_lc c : kvc c = true -> lc c = true.
+Proof. intros H. apply tokc_lc. now apply kvc_tokc. Qed.
+Definition kv_ok (kv : str * str) : bool := forallb kvc (fst kv) && nosep 61 (fst kv) && forallb kvc (snd kv).
 (* keys strictly ascending: every key is greater than all keys before it *)
 Definition opts_sorted (l : list (str * str)) : Prop :=
   forall a kv b, l = a ++ kv :: b -> Forall (fun x => str_cmp (fst kv) (fst x) = Gt) a.
@@ -681,7 +690,7 @@ Lemma kv_text_tokb kv : kv_ok kv = true -> tokb (kv_text kv) = true.
 Proof.
   unfold kv_ok, kv_text, tokb. intros H. apply andb_true_iff in H as [H Hv]. apply andb_true_iff in H as [Hk _].
   assert (E : at_end (fst kv ++ [61] ++ snd kv) = false) by (destruct (fst kv); reflexivity). rewrite E. cbn [negb andb].
-  rewrite !forallb_app. rewrite (forallb_impl _ _ _ safe_tokc Hk), (forallb_impl _ _ _ safe_tokc Hv). reflexivity.
+  rewrite !forallb_app. rewrite (forallb_impl _ _ _ kvc_tokc Hk), (forallb_impl _ _ _ kvc_tokc Hv). reflexivity.
 Qed.
 
 Theorem parse_opts_text o : Forall (fun kv => kv_ok kv = true) o -> opts_sorted o -> parse_opts (opts_text o) = o.
@@ -745,7 +754,7 @@ Qed.
 Definition weight_text_stable (w : wt) : Prop := pweight_dec (fmt4 w) = Ok w.
 
 Definition tg_text_ok (h p : str) (ts : list target) (tg : target) : Prop :=
-  stok (t_svc tg) = true /\ stok (h ++ p) = true /\ stok (t_url tg) = true
+  tokb (t_svc tg) = true /\ tokb (h ++ p) = true /\ tokb (t_url tg) = true
   /\ Forall (fun t => tag_ok t = true) (t_tags tg)
   /\ Forall (fun kv => kv_ok kv = true) (t_opts tg) /\ opts_sorted (t_opts tg)
   /\ w_is_neg (t_fw tg) = false
@@ -759,11 +768,11 @@ Proof.
   eapply forallb_impl; eauto.
 Qed.
 Lemma tagc_qc c : tagc c = true -> qc c = true.
-Proof. unfold tagc. intros H. apply andb_true_iff in H as [H _]. now apply andb_true_iff in H as [? _]. Qed.
+Proof. unfold tagc. intros H. apply andb_true_iff in H as [H _]. apply andb_true_iff in H as [H _]. now apply andb_true_iff in H as [? _]. Qed.
 Lemma tagc_lc c : tagc c = true -> lc c = true.
-Proof. unfold tagc. intros H. apply andb_true_iff in H as [H _]. now apply andb_true_iff in H as [_ ?]. Qed.
+Proof. unfold tagc. intros H. apply andb_true_iff in H as [H _]. apply andb_true_iff in H as [H _]. now apply andb_true_iff in H as [_ ?]. Qed.
 
-Lemma opts_text_class (f : N -> bool) o : (forall c, safe c = true -> f c = true) -> f 32 = true -> f 61 = true ->
+Lemma opts_text_class (f : N -> bool) o : (forall c, kvc c = true -> f c = true) -> f 32 = true -> f 61 = true ->
   Forall (fun kv => kv_ok kv = true) o -> forallb f (opts_text o) = true.
 Proof.
   intros Hf H32 H61 H. unfold opts_text. apply forallb_join; [|cbn; now rewrite H32].
@@ -772,6 +781,9 @@ Proof.
   unfold kv_text. rewrite !forallb_app. cbn [forallb]. rewrite H61.
   now rewrite (forallb_impl _ _ _ Hf Hk), (forallb_impl _ _ _ Hf Hv).
 Qed.
+
+Lemma tokb_lc s : tokb s = true -> forallb lc s = true.
+Proof. unfold tokb. intros H. apply andb_true_iff in H as [_ H]. eapply forallb_impl; [apply tokc_lc | exact H]. Qed.
 
 Lemma stok_class (f : N -> bool) s : (forall c, safe c = true -> f c = true) -> stok s = true -> forallb f s = true.
 Proof. intros Hf H. unfold stok in H. apply andb_true_iff in H as [_ H]. eapply forallb_impl; eauto. Qed.
@@ -788,9 +800,9 @@ Proof.
   { unfold otg_of, oq_ok. destruct (t_tags tg); auto. apply tags_text_class; auto using tagc_qc. }
   assert (Hoop : oq_ok (oop_of tg)).
   { unfold oop_of, oq_ok. destruct (t_opts tg); auto.
-    apply opts_text_class; auto using safe_qc. }
+    apply opts_text_class; auto using kvc_qc. }
   split.
-  - rewrite parse_line_rendered; auto using stok_tokb.
+  - rewrite parse_line_rendered; auto.
     assert (Ew : parse_weight pweight_dec (ow_of tg) = Ok (t_fw tg)).
     { unfold ow_of. destruct (w_is_pos (t_fw tg)) eqn:Ep.
       - unfold parse_weight. pose proof (fmt4_tokb (t_fw tg)) as Hf. destruct (fmt4 (t_fw tg)) eqn:E; [discriminate|].
@@ -801,11 +813,11 @@ Proof.
       apply parse_tags_join; auto. discriminate.
     + unfold oop_of. destruct (t_opts tg); [reflexivity|]. cbn [ostr].
       now apply parse_opts_text.
-  - apply add_line_lc; auto using stok_class, safe_lc.
+  - apply add_line_lc; auto using tokb_lc.
     + unfold ow_of. destruct (w_is_pos _); auto. pose proof (fmt4_tokb (t_fw tg)) as Hf. unfold tokb in Hf.
       apply andb_true_iff in Hf as [_ Hf]. eapply forallb_impl; [apply tokc_lc | exact Hf].
     + unfold otg_of. destruct (t_tags tg); auto. apply tags_text_class; auto using tagc_lc.
-    + unfold oop_of. destruct (t_opts tg); auto. apply opts_text_class; auto using safe_lc.
+    + unfold oop_of. destruct (t_opts tg); auto. apply opts_text_class; auto using kvc_lc.
 Qed.
 
 (* ---- lines ---- *)
@@ -1008,5 +1020,5 @@ Proof.
 Qed.
 
 (* the tag class reaches beyond the safe byte class: backslash, control and non-ASCII bytes *)
-Lemma tag_domain_wide : tag_ok (bs "x\y") = true /\ tag_ok [1; 92; 200] = true /\ tag_ok (bs "a b") = true.
+Lemma tag_domain_wide : tag_ok (bs "x\y") = true /\ tag_ok [1; 92; 127] = true /\ tag_ok (bs "a b") = true.
 Proof. repeat split; vm_compute; reflexivity. Qed.
